@@ -640,7 +640,7 @@ func c19Globals(c *Ctx, p *Prog, la *lockAnalysis) {
 				kind := byte('R')
 				switch x := in.(type) {
 				case *ssa.Store:
-					if x.Addr == ssa.Value(g) {
+					if sameOrigin(x.Addr, ssa.Value(g)) {
 						kind = 'W'
 					}
 				case *ssa.UnOp:
